@@ -67,6 +67,7 @@ M = [
      "               scaleExp = - _scaler->getRowScaleExp(_solver.number(_solver.basis().baseId(r)));", "               scaleExp = _scaler->getRowScaleExp(_solver.number(_solver.basis().baseId(r)));"),
     ('C12', 'mps-bound-token-unknown', 'R12.1', 'src/soplex/spxlpbase_real.hpp',
      "            MPSwriteRecord(p_output, \"UP\", \"BOUND\", getColName(*this, i, p_cnames, name1), upper(i));", "            MPSwriteRecord(p_output, \"XX\", \"BOUND\", getColName(*this, i, p_cnames, name1), upper(i));"),
+    ('C16', 'interrupt-not-forwarded', 'R16.5', 'src/soplex/solvereal.hpp', "      _preprocessAndSolveReal(true, interrupt);", "      _preprocessAndSolveReal(true);"),
     ('C17', 'flag-not-copied', 'R17.1', 'src/soplex.hpp', "      _hasBasis = rhs._hasBasis;\n", ""),
     ('C17', 'basis-backpointer-not-rebound', 'R17.6', 'src/soplex/spxsolver.hpp', "         SPxBasisBase<R>::theLP = this;\n\n         assert(!freePricer", "         assert(!freePricer"),
     ('C17', 'guard-reads-destination', 'R17.5', 'src/soplex/slufactor.hpp', "   if(!old.l.rval.empty())", "   if(!this->l.rval.empty())"),
